@@ -81,7 +81,7 @@ def classify(install):
 
 def run(ctx):
     ctx.rule = ("[Install] sections with 0-2 WantedBy/RequiredBy assignments of 0-3 words (plain names, names with '/' anywhere including a trailing separator or '/.', '..', blanks, non-ASCII) and 0-2 Alias assignments (plain, nested, "
-                "with '.'/'..', climbing out, absolute paths pointing at decoy files outside the output directory, '/', '..'), with and without template names and DefaultInstance; each run "
+                "with '.'/'..', climbing out, absolute paths pointing at decoy files outside the output directory, '/', '..'), with and without template names (also instance names that begin with or contain '@') and DefaultInstance; each run "
                 "through the real enable_service_file in a scratch tree with decoys; non-trivial = at least one Alias or a word with '/' or '..'; distinct = distinct (service name, section)")
     rng = ctx.rng
     n = ctx.volume(400, 5000)
@@ -91,7 +91,7 @@ def run(ctx):
         cases = []
         for i in range(n):
             inst = gen_install(rng)
-            svcfile = rng.choice(["web.service", "web.service", "tpl@.service", "tpl@one.service", "a b.service"])
+            svcfile = rng.choice(["web.service", "web.service", "tpl@.service", "tpl@one.service", "a b.service", "web@@home.service", "u@a@b.service", "@x.service"])
             d = os.path.join(root, str(i))
             os.makedirs(os.path.join(d, "out"))
             os.makedirs(os.path.join(d, "ABS", "sub"))
